@@ -699,7 +699,8 @@ func footprintOutcome(w *World, fo *funcOutcome) {
 		fo.VC.Obls = append(fo.VC.Obls, &Obl{Name: what, Kind: "table", Offset: i, Func: fo.Key,
 			Descr: fmt.Sprintf("field %s is %s only by %v; additional functions found: %v (%s)", fs.Field, what, allowed, extra, fs.Why)})
 		st := "unsat"
-		if len(extra) > 0 {
+		if len(extra) > 0 || len(got) == 0 {
+			// an empty scan result would make the obligation vacuous: the field must be found
 			st = "sat"
 		}
 		fo.Res[i] = OblResult{st, "ssa-scan", 0}
